@@ -542,8 +542,7 @@ Section DegenerateThm.
     assert (l1 = l) by congruence. assert (l2 = l') by congruence. subst l1 l2.
     pose proof (cn_make_list _ _ _ En) as Hl.
     destruct (nl_guard_inv _ _ _ _ Eg') as (Hpart & _ & _).
-    unfold check_partition in Hpart. apply andb_true_iff in Hpart as [_ Hint].
-    unfold check_intersection in Hint. apply andb_true_iff in Hint as [Hial Hpd].
+    destruct (check_partition_inv _ Hpart) as (_ & Hial & Hpd).
     rewrite Hl', map_map in Hpd, Hial. simpl in Hpd, Hial. rewrite Hal' in Hial.
     (* lognested succeeded: every alternative of U is alone or in a nest *)
     destruct (lognested_inv _ _ _ _ _ E') as (n3 & H3 & En3 & _ & EH3 & _).
